@@ -51,6 +51,33 @@ claimed = {
 
 not_applicable = {
 }
+claimed.update({
+ "C10": dict(category="other",
+   text="Decides structural necessary conditions: the stored signature is the configured signer's SignHash over the commitment of the very certificate object that is returned, sent and serialised, with no covered field written after hashing; the computed set of fields entering the commitment / identity hashes is forwarded on the wire, has JSON keys and is restored; every proto field takes its same-named source (both claim kinds agree); hand-written JSON codecs agree key path by key path per field; every Hash() covers its struct except a reasoned table. Collision-freeness ('changing a field changes the commitment') beyond 'the field is read into the hash input at a fixed-width position' is not decided.",
+   ref="4 C10", technique="static analysis: provenance / mod-set rules on SSA, computed read sets, field-map and JSON key-path agreement"),
+ "C11": dict(category="other",
+   text="Decides structural necessary conditions of mirroring the L1 contracts: topic constants are the ABI signatures (from the contract bindings) of the events their handlers parse; handler and ProcessBlock field maps; hash/GER layouts against the contract; index = initial + counter with +1 only after a successful append; announced-root / leaf-count mismatch latches the halt; rollup exit tree updated with {RollupID-1, ExitRoot} only for a non-zero changed root and the returned root recorded; UNIQUE GER and bound lookups. Value equality with the contracts for all histories is not decided.",
+   ref="4 C11", technique="static analysis: ABI cross-check, field-map provenance, layout extraction, dominance, DDL reader"),
+ "C12": dict(category="other",
+   text="Decides the proof-assembly half structurally: one info leaf by leaf_index; L1 branch proves against its MainnetExitRoot; L2 branch proves against the local exit root looked up under its RollupExitRoot; rollup proof for (network, RollupExitRoot); response carries those and the same leaf; every lookup error ends the handler before the 200 answer. The two binary searches (monotonicity + midpoint arithmetic over runtime data) are declined.",
+   ref="4 C12", technique="static analysis: value provenance with bound SSA values, dominance"),
+ "C15": dict(category="other",
+   text="Decides structural necessary conditions: the single InjectGER call is reachable only after IsGERInjected of the same value returned (false, nil); that value is GetLatestInfoUntilBlock(sampled finalized block).GlobalExitRoot of a successful query; finality sampled with the configured block tag whose only writer is the constructor; success returns retry target 0 (next tick samples again). Liveness under arbitrary relative speeds is not decided.",
+   ref="4 C15", technique="static analysis: dominance, provenance, who-may-call/write"),
+ "C17": dict(category="other",
+   text="Decides the comparison-only part exactly: both Range filters keep an element iff fromBlock <= BlockNum <= toBlock (all written forms of the comparisons recognised), append the element itself in source order, copy every other field; sub-range precondition; every cut keeps the first block; shrink step, loop variable and exit conditions of limitCertSize; last-block clamp. Maximality, size monotonicity (float) and BlockRange.Gap (saturating arithmetic) are declined.",
+   ref="4 C17", technique="static analysis: exact comparison/guard analysis on SSA, provenance"),
+ "C19": dict(category="other",
+   text="Decides 'the same value everywhere' structurally: at each of the four encoding sites the encoder's arguments are MainnetFlag, RollupIndex, LeafIndex of one object in order; the decoder's results go to the same-named fields; each carrier uses the encoding its consumer expects; any new encoder call site or hand-rolled composition is reported. Round-trip and bit layout of GenerateGlobalIndex / DecodeGlobalIndex (byte-length arithmetic on big.Int) are declined.",
+   ref="4 C19", technique="static analysis: who-may-call enumeration, argument provenance"),
+ "C20": dict(category="other",
+   text="Decides structural necessary conditions: data[i] positions and method selectors agree with the bridge ABI read from the binding packages; found only on index equality, no write before it, IsMessage only when found; findCall offers / returns / expands a frame only past its own Err == nil test (inductive non-reverted traversal) and only bridge frames; exhausted search is an error; the claim is recorded only after its calldata was found. ABI decoding (go-ethereum) is trusted.",
+   ref="4 C20", technique="static analysis: ABI cross-check (selectors via keccak of ABI signatures), dominance, provenance"),
+})
+not_applicable.update({
+ "C18": "the whole statement is integer/float arithmetic (percentage threshold, rounding, epoch numbering) over arbitrary increasing block sequences; no clause is visible in the shape of the code beyond 'the counter advances when an event is emitted', which the tests already pin and which does not imply the property — declined rather than claimed through a proxy (DESIGN.md section 6)",
+})
+
 DEFAULT_NA = "check not built yet (work in progress; see DESIGN.md section 8)"
 
 checks = []
